@@ -81,8 +81,9 @@ impl StreamChunker {
         io_block_size: usize,
     ) -> Result<Chunk> {
         use std::io::Read;
-        // Can't do 0-byte I/O
-        let io_block_size = io_block_size.max(1);
+        // Can't do 0-byte I/O, and a 1-byte block can't make progress
+        // past the byte we carry over (a potential sentinel prefix).
+        let io_block_size = io_block_size.max(2);
         while self.buf.slice().len() < 2 {
             let buf = self.buf.take();
 
